@@ -31,7 +31,7 @@ TESTDIR = os.path.join(core.REPO, "src", "psyclone", "tests", "test_files", "dyn
 
 MISMATCH = ("too many actual arguments", "missing actual for", "struct dummy with non-struct actual",
             "type mismatch in argument", "array actual for scalar dummy", "scalar actual for array dummy",
-            "rank-changing argument association", "unknown keyword")
+            "rank-changing argument association", "unknown keyword", "unknown name")
 
 
 def ndf(it, okey):
@@ -309,8 +309,12 @@ def work(job):
             continue
         text = "\n".join(stubs.values()) + "\n" + txt
         o = {"key": k2, "nontrivial": True, "h": tv.text_hash(text + inv.name), "solver_s": 0.0}
+        dup = duplicate_dummies(text)
         try:
-            st, detail, nob, ss, reach = decide_invoke(text, inv.name.lower(), space_constraints(kerns))
+            if dup:
+                st, detail, nob, ss, reach = "mismatch", dup, 0, 0.0, "sat"
+            else:
+                st, detail, nob, ss, reach = decide_invoke(text, inv.name.lower(), space_constraints(kerns))
         except Unsupported as e:
             st, detail, nob, ss, reach = "unsupported", "parse: " + str(e), 0, 0.0, None
         o["solver_s"], o["nqueries"], o["reach"] = ss, nob, reach or "sat"
@@ -334,7 +338,20 @@ def work(job):
     return outs
 
 
+def duplicate_dummies(text):
+    """a stub whose dummy list names one entity twice is not an interface at all"""
+    flat = re.sub(r"&\s*\n\s*&?", "", text).lower()
+    for m in re.finditer(r"subroutine\s+(\w+_code)\s*\(([^)]*)\)", flat):
+        d = [x.strip() for x in m.group(2).split(",") if x.strip()]
+        rep = sorted({x for x in d if d.count(x) > 1})
+        if rep:
+            return f"duplicate dummy argument {rep[0]} in the stub of {m.group(1)}"
+    return None
+
+
 def replay(text, routine, st, detail):
+    if detail.startswith("duplicate dummy"):
+        return True
     """independent of fsym's binder: read the call statement and the stub's dummy list/declarations from
     the text (regex) and compare counts, and rank/type per position"""
     flat = re.sub(r"&\s*\n\s*&?", "", text)
@@ -402,7 +419,7 @@ def main():
     jobs = [(a, dm, [TESTDIR]) for a in algs for dm in ((False,) if tier == "quick" else (False, True))]
     results = core.pmap(work, jobs)
     from vlib.families import lfric_meta
-    metas = lfric_meta.gen(60 if tier == "quick" else 1200, 1)
+    metas = lfric_meta.gen(60 if tier == "quick" else 1200, 1) + lfric_meta.mesh_combos()
     results += core.pmap(work_meta, [(m, dm) for m in metas for dm in ((False,) if tier == "quick" else (False, True))])
     flat = []
     for r in results:
